@@ -165,6 +165,34 @@ class Check:
         for p, kv in st.items():
             plan.setdefault("stat", {}).setdefault(p, {}).update(kv)
         roots = [{"top": t, "mode": rng.choice(["bfs", "dfs"])} for t in tops]
+        if rng.random() < 0.15:
+            # `symlinks`: a directory reachable both directly and through a link that sits elsewhere (often shallower); which
+            # path text its entries are printed under depends on the walk, and the walk must not depend on ORDER BY
+            import os as _os
+            have = {n["path"] for n in world["nodes"]}
+            added = False
+            for r in roots:
+                ds = [n["path"] for n in world["nodes"] if n["type"] == "dir" and n["path"].startswith(r["top"] + "/")]
+                for i in range(rng.choice([1, 2])):
+                    if not ds:
+                        break
+                    tgt = rng.choice(ds)
+                    homes = [d for d in [r["top"]] + ds if not (tgt + "/").startswith(d + "/") or d == r["top"]]
+                    home = rng.choice(homes)
+                    if (home + "/").startswith(tgt + "/"):
+                        continue
+                    lp = "%s/zl%d" % (home, i)
+                    if lp in have:
+                        continue
+                    have.add(lp)
+                    world["nodes"].append({"path": lp, "type": "symlink", "target": _os.path.relpath(tgt, home)})
+                    added = True
+                if added:
+                    r["mode"] += " symlinks"
+            if added:
+                # the new links need a place in the arrival orders
+                _, plan2 = gen.gen_env(rng, world)
+                plan["order"] = plan2.get("order", {})
         if rng.random() < 0.12:
             plan["tty"] = True  # stdout is a terminal: fselect colourises the name column (LS_COLORS-style), which must not touch the order
         tz = rng.choice(["UTC", "Europe/Berlin", "Asia/Kolkata", "America/New_York"])
